@@ -1,0 +1,31 @@
+//go:build verif
+
+// Verification contracts (comments only; compiled only with -tags verif).
+// Checked by /verif/bin/govc; see /verif/DESIGN.md.
+
+package best
+
+//@ type Service
+//@   valid self.clientMonitor != nil && self.aggregateAttestationProviders != nil
+//@   valid forall n string :: in(self.aggregateAttestationProviders, n) ==> self.aggregateAttestationProviders[n] != nil
+//@
+//@ // ---- C20: the goroutines a request starts all end, whether or not anybody still listens ----
+//@
+//@ // a node's goroutine sends exactly one message, on one of the two channels it is handed
+//@ func (*Service).aggregateAttestation
+//@   thread
+//@   requires s != nil && opts != nil && provider != nil && !closed(respCh) && !closed(errCh)
+//@   // go-eth2-client returns a response with every nil error
+//@   assumes call AggregateAttestation#1 (r, err): err == nil ==> r != nil
+//@   exit sends() == 1
+//@
+//@ func (*Service).AggregateAttestation
+//@   requires s != nil && opts != nil
+//@   // nstarted: the number of goroutines started so far. A goroutine is only started while both channels have room
+//@   // for one more message than there are goroutines already: as each sends exactly one message, none can block when
+//@   // the requester has stopped listening
+//@   ghost nstarted Int = 0
+//@   at call go#1: assert nstarted < chancap(arg5) && nstarted < chancap(arg6)
+//@   at call go#1: ghost nstarted = nstarted + 1
+//@   loop 1
+//@     invariant nstarted == nvisited()
